@@ -196,6 +196,12 @@ class StmtMixin:
                 continue
             if self.c.asserts:
                 key = "before:" + norm_text(self.cf.text(s))
+                if key not in self.c.asserts:
+                    full = norm_text(self.cf.text(s), 100000)
+                    for k2 in self.c.asserts:
+                        if isinstance(k2, str) and k2.startswith("before^:") and full.startswith(k2[len("before^:"):]):
+                            key = k2
+                            break
                 if key in self.c.asserts:
                     self.loop_keys_used.add(("assert", key))
                     for tag, a in self.clauses(self.c.asserts[key]):
